@@ -57,19 +57,24 @@ def batch(rng, ctx, npk, big, budget):
     return out
 
 
-def gen(seed, nepisodes, prefix='r', big=True):
+def gen(seed, nepisodes, prefix='r', big=True, hist=False):
     rng = random.Random(seed)
     for i in range(nepisodes):
-        ops = [{'op': 'init', 'dev': rng.choice([0, rng.randrange(65536)]), 'stream': rng.choice([0, rng.randrange(256)]), 'seq': 0}]
-        ncalls = rng.choice([1, 1, 2, 3, 5])
+        # ids from a small pool per episode, so that a history comes back to an id it used before
+        devs = [rng.choice([0, rng.randrange(65536)]) for _ in range(rng.choice([1, 2, 3]))]
+        streams = [rng.choice([0, rng.randrange(256)]) for _ in range(rng.choice([1, 2, 3]))]
+        ops = [{'op': 'init', 'dev': devs[0], 'stream': streams[0], 'seq': 0}]
+        ncalls = rng.choice([1, 1, 2, 3, 5] + ([8, 12] if hist else []))
+        pset = 0.5 if hist else 0.2
         for _ in range(ncalls):
-            r = rng.random()
-            if r < 0.08:
-                ops.append({'op': 'setDev', 'v': rng.randrange(65536)})
-            elif r < 0.16:
-                ops.append({'op': 'setStream', 'v': rng.randrange(256)})
-            elif r < 0.2:
-                ops.append({'op': 'restart'})
+            while rng.random() < pset:
+                r = rng.random()
+                if r < 0.4:
+                    ops.append({'op': 'setDev', 'v': rng.choice(devs + [rng.randrange(65536)])})
+                elif r < 0.8:
+                    ops.append({'op': 'setStream', 'v': rng.choice(streams + [rng.randrange(256)])})
+                else:
+                    ops.append({'op': 'restart'})
             ctx = pick_ctx(rng, big)
             npk = rng.choice([1, 1, 2, 3, 5, 8, 20, 40])
             b = batch(rng, ctx, npk, big, 150000)
